@@ -27,18 +27,39 @@ import (
 // symbol 0..23: request  = instance(3) x round(2) x phase(2) x signature(2)
 // symbol 24   : restart reloading the accepted log
 
-const (
-	nInst    = 3
-	nRound   = 2
-	nPhase   = 2
-	nSig     = 2
-	nReq     = nInst * nRound * nPhase * nSig // 24
-	symStart = nReq                           // 24
-	nSym     = nReq + 1
-	nSlots   = nInst * nRound * nPhase
+// alpha is one request alphabet; the enumeration is run once per alphabet.
+type alpha struct {
+	name                        string
+	nInst, nRound, nPhase, nSig int
+	rounds                      []uint64 // round value of round index k
+	phases                      []gpbft.Phase
+}
+
+var alphabets = []alpha{
+	// symbol 0..23: request = instance(3) x round(2) x phase(2) x signature(2); symbol 24: restart
+	{"A: instance 0..2 x round 0..1 x phase QUALITY|PREPARE x signature s1|s2", 3, 2, 2, 2, []uint64{0, 1}, []gpbft.Phase{gpbft.QUALITY_PHASE, gpbft.PREPARE_PHASE}},
+	// rounds further apart (a slot may lie several rounds behind the newest one): 16 requests + restart
+	{"B: instance 0..1 x round 0|1|2|5 x phase PREPARE x signature s1|s2", 2, 4, 1, 2, []uint64{0, 1, 2, 5}, []gpbft.Phase{gpbft.PREPARE_PHASE}},
+}
+
+const maxSlots = 16
+const caseStride = 100000
+
+var (
+	nInst, nRound, nPhase, nSig, nReq, symStart, nSym, nSlots int
+	roundVals                                                 []uint64
+	phases                                                    []gpbft.Phase
 )
 
-var phases = [nPhase]gpbft.Phase{gpbft.QUALITY_PHASE, gpbft.PREPARE_PHASE}
+func useAlphabet(a alpha) {
+	nInst, nRound, nPhase, nSig = a.nInst, a.nRound, a.nPhase, a.nSig
+	nReq = nInst * nRound * nPhase * nSig
+	symStart, nSym, nSlots = nReq, nReq+1, nInst*nRound*nPhase
+	roundVals, phases = a.rounds, a.phases
+	if nSlots > maxSlots {
+		panic("alphabet too large")
+	}
+}
 
 func symInst(s int) int  { return s / (nRound * nPhase * nSig) }
 func symRound(s int) int { return (s / (nPhase * nSig)) % nRound }
@@ -50,7 +71,7 @@ func symString(s int) string {
 	if s == symStart {
 		return "RESTART"
 	}
-	return fmt.Sprintf("req(i=%d,r=%d,%s,s%d)", symInst(s), symRound(s), phases[symPhase(s)], symSig(s)+1)
+	return fmt.Sprintf("req(i=%d,r=%d,%s,s%d)", symInst(s), roundVals[symRound(s)], phases[symPhase(s)], symSig(s)+1)
 }
 
 func seqString(seq []int) string {
@@ -63,14 +84,14 @@ func seqString(seq []int) string {
 
 const filterSender = gpbft.ActorID(7)
 
-func buildAlphabet() [nReq]*gpbft.GMessage {
-	var out [nReq]*gpbft.GMessage
+func buildAlphabet() []*gpbft.GMessage {
+	out := make([]*gpbft.GMessage, nReq)
 	for s := 0; s < nReq; s++ {
 		out[s] = &gpbft.GMessage{
 			Sender: filterSender,
 			Vote: gpbft.Payload{
 				Instance: uint64(symInst(s)),
-				Round:    uint64(symRound(s)),
+				Round:    roundVals[symRound(s)],
 				Phase:    phases[symPhase(s)],
 			},
 			Signature: []byte{byte('A' + symSig(s)), 0xC1, 0x2C},
@@ -102,12 +123,12 @@ type filterStats struct {
 // runSequence drives one production filter through seq and judges the wire
 // (the let-through log) with the reference written from the property text.
 // It returns a violation signature ("" if none) and the step at which it fired.
-func runSequence(local peer.ID, msgs *[nReq]*gpbft.GMessage, seq []int, st *filterStats, wire []int) (string, int, []int) {
+func runSequence(local peer.ID, msgs []*gpbft.GMessage, seq []int, st *filterStats, wire []int) (string, int, []int) {
 	flt := f3.VerifC12NewFilter(local)
 	wire = wire[:0]
 	// reference state over the wire
-	var slotSig [nSlots]int8
-	var slotEra [nSlots]int8 // number of restarts seen when the slot was first put on the wire
+	var slotSig [maxSlots]int8
+	var slotEra [maxSlots]int8 // number of restarts seen when the slot was first put on the wire
 	for i := range slotSig {
 		slotSig[i] = -1
 	}
@@ -189,7 +210,7 @@ func TestCheck(t *testing.T) {
 	run := vkit.New("C12", "filter", "fault_enumeration")
 	maxLen := run.N(5, 6)
 	run.SetExhaustive(true)
-	run.SetRule(fmt.Sprintf("EXHAUSTIVE: every sequence of length 1..%d over the 25-symbol alphabet {instance 0..2 x round 0..1 x phase QUALITY|PREPARE x signature s1|s2 requests} + {restart = fresh production filter re-fed, in order, every message the previous one let through (the WAL replay of host start-up)}, each driven through the production equivocationFilter.ProcessBroadcast; an evaluation is one sequence; non-trivial = at least one request the reference (written from the property text) requires to be kept off the wire; distinct = outcome classes (length, restarts, conflict/older suppressions, suppressions whose cause predates a restart, wire length)", maxLen))
+	run.SetRule(fmt.Sprintf("EXHAUSTIVE: every sequence of length 1..%d over each of two request alphabets (A: instance 0..2 x round 0..1 x phase QUALITY|PREPARE x signature s1|s2 = 24 requests; B: instance 0..1 x round 0|1|2|5 x PREPARE x signature s1|s2 = 16 requests) + {restart = fresh production filter re-fed, in order, every message the previous one let through (the WAL replay of host start-up)}, each driven through the production equivocationFilter.ProcessBroadcast; an evaluation is one sequence; non-trivial = at least one request the reference (written from the property text) requires to be kept off the wire; distinct = outcome classes (length, restarts, conflict/older suppressions, suppressions whose cause predates a restart, wire length)", maxLen))
 	run.Assume("single sender identity and no ProcessReceive traffic (that path is dead code in this tree; behaviour with another node using the same identity is not claimed)",
 		"restart is modelled as host.go newRunner does it: a new filter, every logged message passed through ProcessBroadcast in log order with the result ignored; the log holds exactly the let-through messages (no storage errors)",
 		"the 'companion' conjunct (a request conflicting with nothing on the wire must not be suppressed) is a non-vacuity complement to the safety statement: without it a filter that merges slots or drops everything would pass")
@@ -198,90 +219,101 @@ func TestCheck(t *testing.T) {
 	if err != nil {
 		t.Fatal(err)
 	}
-	msgs := buildAlphabet()
-
-	// Work units: the first two symbols (625 prefixes) plus the length-1
-	// sequences as unit -1.
-	type unit struct{ a, b int }
-	var units []unit
-	units = append(units, unit{-1, -1})
-	for a := 0; a < nSym; a++ {
-		for b := 0; b < nSym; b++ {
-			units = append(units, unit{a, b})
-		}
-	}
 	var mu sync.Mutex
 	total := filterStats{classes: map[string]struct{}{}}
+	ai := 0
 	report := func(sig string, seq []int, step int, wire []int, ui int) {
 		w := make([]string, len(wire))
 		for i, s := range wire {
 			w[i] = symString(s)
 		}
 		run.Violation(sig, map[string]any{
-			"case": ui, "sequence": seqString(seq), "failing_step": step, "wire_before": w,
+			"case": ai*caseStride + ui, "alphabet": alphabets[ai].name, "sequence": seqString(seq), "failing_step": step, "wire_before": w,
 			"how_to_reproduce": "f := f3.VerifC12NewFilter(pid); feed the sequence through ProcessBroadcast; RESTART = new filter re-fed the let-through messages in order",
 		})
 	}
-	vkit.Parallel(len(units), runtime.GOMAXPROCS(0), func(ui int) {
-		if run.Case >= 0 && int64(ui) != run.Case {
-			return
-		}
-		st := filterStats{classes: map[string]struct{}{}}
-		wire := make([]int, 0, 8)
-		u := units[ui]
-		check := func(seq []int) {
-			st.sequences++
-			sig, step, w := runSequence(local, &msgs, seq, &st, wire)
-			wire = w
-			if sig != "" {
-				report(sig, append([]int(nil), seq...), step, w, ui)
+	var want int64
+	for ai = range alphabets {
+		useAlphabet(alphabets[ai])
+		msgs := buildAlphabet()
+
+		// Work units: the first two symbols (625 prefixes) plus the length-1
+		// sequences as unit -1.
+		type unit struct{ a, b int }
+		var units []unit
+		units = append(units, unit{-1, -1})
+		for a := 0; a < nSym; a++ {
+			for b := 0; b < nSym; b++ {
+				units = append(units, unit{a, b})
 			}
 		}
-		if u.a < 0 {
-			for s := 0; s < nSym; s++ {
-				check([]int{s})
+		vkit.Parallel(len(units), runtime.GOMAXPROCS(0), func(ui int) {
+			if run.Case >= 0 && int64(ai*caseStride+ui) != run.Case {
+				return
 			}
-		} else {
-			seq := make([]int, 2, maxLen)
-			seq[0], seq[1] = u.a, u.b
-			check(seq)
-			// odometer over suffixes of length 1..maxLen-2
-			for extra := 1; extra <= maxLen-2; extra++ {
-				seq = seq[:2+extra]
-				for i := 2; i < len(seq); i++ {
-					seq[i] = 0
+			st := filterStats{classes: map[string]struct{}{}}
+			wire := make([]int, 0, 8)
+			u := units[ui]
+			check := func(seq []int) {
+				st.sequences++
+				sig, step, w := runSequence(local, msgs, seq, &st, wire)
+				wire = w
+				if sig != "" {
+					report(sig, append([]int(nil), seq...), step, w, ui)
 				}
-				for {
-					check(seq)
-					i := len(seq) - 1
-					for i >= 2 {
-						seq[i]++
-						if seq[i] < nSym {
+			}
+			if u.a < 0 {
+				for s := 0; s < nSym; s++ {
+					check([]int{s})
+				}
+			} else {
+				seq := make([]int, 2, maxLen)
+				seq[0], seq[1] = u.a, u.b
+				check(seq)
+				// odometer over suffixes of length 1..maxLen-2
+				for extra := 1; extra <= maxLen-2; extra++ {
+					seq = seq[:2+extra]
+					for i := 2; i < len(seq); i++ {
+						seq[i] = 0
+					}
+					for {
+						check(seq)
+						i := len(seq) - 1
+						for i >= 2 {
+							seq[i]++
+							if seq[i] < nSym {
+								break
+							}
+							seq[i] = 0
+							i--
+						}
+						if i < 2 {
 							break
 						}
-						seq[i] = 0
-						i--
-					}
-					if i < 2 {
-						break
 					}
 				}
 			}
+			mu.Lock()
+			total.sequences += st.sequences
+			total.nontrivial += st.nontrivial
+			total.requests += st.requests
+			total.letThrough += st.letThrough
+			total.suppConflict += st.suppConflict
+			total.suppOld += st.suppOld
+			total.suppAcrossRstart += st.suppAcrossRstart
+			total.restarts += st.restarts
+			for c := range st.classes {
+				total.classes[c] = struct{}{}
+			}
+			mu.Unlock()
+		})
+
+		p := int64(1)
+		for l := 1; l <= maxLen; l++ {
+			p *= int64(nSym)
+			want += p
 		}
-		mu.Lock()
-		total.sequences += st.sequences
-		total.nontrivial += st.nontrivial
-		total.requests += st.requests
-		total.letThrough += st.letThrough
-		total.suppConflict += st.suppConflict
-		total.suppOld += st.suppOld
-		total.suppAcrossRstart += st.suppAcrossRstart
-		total.restarts += st.restarts
-		for c := range st.classes {
-			total.classes[c] = struct{}{}
-		}
-		mu.Unlock()
-	})
+	}
 	run.Eval(total.sequences)
 	for c := range total.classes {
 		run.Distinct(c)
@@ -295,15 +327,10 @@ func TestCheck(t *testing.T) {
 	run.Count("suppressed_cause_before_restart", total.suppAcrossRstart)
 	run.Count("restarts", total.restarts)
 	run.SetExtra("max_sequence_length", maxLen)
+	useAlphabet(alphabets[0])
 	run.Sample(map[string]any{"sequence": seqString([]int{0, 1, symStart, 1, 8, 0}), "note": "s1 let through, s2 suppressed, restart, s2 still suppressed, instance 1 let through, instance 0 suppressed as older"})
 
 	if run.Case < 0 {
-		want := int64(0)
-		p := int64(1)
-		for l := 1; l <= maxLen; l++ {
-			p *= nSym
-			want += p
-		}
 		if total.sequences != want {
 			run.Inconclusive("too-few-events")
 			fmt.Printf("enumeration incomplete: %d sequences, expected %d\n", total.sequences, want)
